@@ -26,7 +26,7 @@ class Torque(ResourceManager):
         if not nodefile:
             raise RuntimeError('$PBS_NODEFILE not set')
 
-        nodes = self._parse_nodefile(nodefile)
+        nodes = self._parse_nodefile(nodefile, cpn=rm_info.cores_per_node)
 
         if not rm_info.cores_per_node:
             rm_info.cores_per_node = self._get_cores_per_node(nodes)
